@@ -328,13 +328,34 @@ class World:
         allowed_exact = set(SYS_PATH.values()) | set(SYS_DIRS_MAY_CREATE) | {self.bk, self.syslog, "/dev/null", "/dev/tty"}
         ev = []
         outside = []
-        line_re = re.compile(r"^(\d+)\s+(\w+)\((.*)\)\s+=\s+(-?\d+|\?)")
+        # the tool is multi-threaded: a call interrupted by another thread's output is printed in two pieces
+        # ("<unfinished ...>" / "<... name resumed>"); they are joined and placed where the call STARTED
+        # (program order of the tool's sequential main task is the order of the starts)
+        lines, pending = [], {}
         with open(path, errors="replace") as f:
-            for line in f:
+            for raw in f:
+                m = re.match(r"^(\d+)\s+(.*)$", raw.rstrip("\n"))
+                if not m:
+                    continue
+                pid, rest = m.group(1), m.group(2)
+                if rest.endswith("<unfinished ...>"):
+                    pending[pid] = len(lines)
+                    lines.append([pid, rest[:-len("<unfinished ...>")].rstrip()])
+                    continue
+                m2 = re.match(r"^<\.\.\. (\w+) resumed>\s*(.*)$", rest)
+                if m2:
+                    if pid in pending:
+                        i = pending.pop(pid)
+                        lines[i][1] = lines[i][1] + m2.group(2)
+                    continue
+                lines.append([pid, rest])
+        line_re = re.compile(r"^(\w+)\((.*)\)\s+=\s+(-?\d+|\?)")
+        if True:
+            for pid, line in lines:
                 m = line_re.match(line)
                 if not m:
                     continue
-                pid, sc, args, ret = m.group(1), m.group(2), m.group(3), m.group(4)
+                sc, args, ret = m.group(1), m.group(2), m.group(3)
                 if ret == "?" or int(ret) < 0:
                     continue
                 # (dirfd, "path") pairs: with -y a descriptor prints as N</its/path>; AT_FDCWD is the tool's cwd
@@ -375,7 +396,7 @@ class World:
                 seen = True
             else:
                 w.append(seen)
-        return {"mutations": len(muts), "w": w,
+        return {"mutations": len(muts), "w": w, "unresumed": len(pending),
                 "stop_before_first_mutation": (not muts) or (bool(stops) and stops[0] < muts[0]),
                 "start_after_last_mutation": (not muts) or (not starts) or starts[-1] > muts[-1],
                 "systemctl": [e[1] for e in ev if e[0] == "systemctl"],
